@@ -872,6 +872,243 @@ def correspond_tparams(ctx, corr):
 
 
 # ---------------------------------------------------------------------------
+# template statements: extracted template_stmt (Parse/TemplateStmt.v) vs the real _parse_template with its continuations recorded
+
+def _conv_tdecl(td):
+    out = []
+    for p in td.params:
+        if isinstance(p, T.TemplateTypeParam):
+            out.append(('type', p.typekey, p.param_pack, p.name, None if p.default is None else tuple(t.value for t in p.default.tokens),
+                        None if p.template is None else _conv_tdecl(p.template)))
+        else:
+            if p.default is not None or p.param_pack:
+                raise decl.Unrepresentable("non-type extras")
+            out.append(('nontype', decl.from_real(p.type), p.name))
+    return out
+
+
+def real_template_stmt(strs):
+    toks = [impl.mk_tok(decl.tok_type(s), s) for s in strs]
+    p = impl.parser_over(toks)
+    got = []
+
+    class Stop(Exception):
+        pass
+
+    def rec(kind, tmpl_pos):
+        def f(*a, **k):
+            tm = a[tmpl_pos] if tmpl_pos is not None and len(a) > tmpl_pos else k.get('template')
+            extra = 0
+            if kind in ('using', 'friend', 'concept', 'decl'):
+                extra = 0
+            got.append((kind, tm, len(p.lex.tokbuf)))
+            raise Stop()
+        return f
+    p._parse_template_instantiation = rec('inst', None)
+    p._parse_using = rec('using', 2)
+    p._parse_friend_decl = rec('friend', 2)
+    p._parse_concept = rec('concept', 2)
+    p._parse_declarations = rec('decl', 2)
+    hdr = []
+
+    def fake_requires(tok):
+        got.append(('requires', None, len(p.lex.tokbuf)))
+        raise Stop()
+    p._parse_requires = fake_requires
+    real_tdecl = p._parse_template_decl
+    seen = []
+
+    def spy_tdecl():
+        t = real_tdecl()
+        seen.append(t)
+        return t
+    p._parse_template_decl = spy_tdecl
+    try:
+        p._parse_template(impl.mk_tok('template', 'template'), None)
+        return ('other',)
+    except Stop:
+        pass
+    except (impl.CxxParseError, EOFError):
+        return ('err',)
+    except (AssertionError, IndexError, KeyError, AttributeError, TypeError, RecursionError):
+        return ('other',)
+    kind, tm, rest = got[0]
+    try:
+        if kind == 'inst':
+            hs = []
+        elif kind == 'requires':
+            hs = [_conv_tdecl(seen[-1])] if seen else None      # nested headers of template template parameters return first
+        elif isinstance(tm, list):
+            hs = [_conv_tdecl(t) for t in tm]
+        elif tm is None:
+            return ('other',)
+        else:
+            hs = [_conv_tdecl(tm)]
+    except decl.Unrepresentable:
+        return ('other',)
+    if hs is None:
+        return ('other',)
+    return ('ok', kind, hs, rest)
+
+
+TSTMT_OUTSIDE = {'template', 'typename', 'struct', 'class', 'union', 'enum', 'decltype', 'operator', 'final'}
+TS_KINDS = {0: 'inst', 1: 'using', 2: 'friend', 3: 'concept', 4: 'requires', 5: 'decl'}
+
+
+def model_template_stmt(cases):
+    lines, nms = [], []
+    for toks in cases:
+        names = decl.Names()
+        lines.append([104] + decl.enc_tokens(toks, names))
+        nms.append(names)
+    res = []
+    for o, names in zip(run_driver(lines), nms):
+        if o[0] != 0:
+            res.append(('err', o[1]))
+            continue
+        rest, kind, n = o[1], TS_KINDS[o[2]], o[3]
+        i = 4
+        hs = []
+        for _ in range(n):
+            k = o[i]
+            lst, i = dec_tparams(o, i + 1, k, names)
+            hs.append(lst)
+        res.append(('ok', kind, hs, rest))
+    return res
+
+
+def tstmt_msg(m, r):
+    if r[0] == 'other' or m == ('err', 4):
+        return None
+    if m[0] == 'err' and m[1] == 9:
+        return "model ran out of budget"
+    if (m[0] == 'ok') != (r[0] == 'ok'):
+        return "model %s, implementation %s" % (m[:2], r[:2])
+    if m[0] == 'ok' and m != r:
+        return "model %s, implementation %s" % (m, r)
+    return None
+
+
+def correspond_template_stmts(ctx, corr):
+    rng = ctx.rng
+    cases = []
+    for _ in range(ctx.scale(500, 10000)):
+        n = rng.choice([0, 1, 1, 1, 2, 3])
+        toks, hs = [], []
+        for i in range(n):
+            t1, e1 = gen_tparams(rng)
+            toks += (['template'] if i else []) + t1
+            hs.append(e1)
+        first = rng.choice(['using', 'friend', 'concept', 'requires', 'struct', 'class', 'void', 'int', 'Foo', 'static', 'constexpr', 'typename', 'extern'])
+        if n == 0:
+            first = rng.choice(['class', 'struct', 'Foo', 'int'])
+        toks += [first] + rng.choice([['X', ';'], ['x', '(', ')', ';'], ['A', '=', 'int', ';']])
+        exp = ('inst', []) if n == 0 else (('decl' if n > 1 or first not in ('using', 'friend', 'concept', 'requires') else first), hs)
+        cases.append((toks, exp, 'tstmt-valid'))
+        if rng.random() < 0.4 and n:
+            mt = c02.mutate(rng, toks) or ['<']
+            # (non-type parameters of fundamental or qualified type are outside the template-parameter model)
+            mt = [t for t in mt if t not in ('int', 'unsigned', 'long', 'char', 'double', 'float', 'short', 'bool', '::', 'auto', 'signed')] or ['<']
+            cases.append((mt, None, 'tstmt-mutated'))
+    ms = model_template_stmt([c[0] for c in cases])
+    for (toks, exp, kind), m in zip(cases, ms):
+        corr.cases += 1
+        r = real_template_stmt(toks)
+        k = kind + ":" + (m[1] if m[0] == 'ok' else 'err%d' % m[1]) + "/" + (r[1] if r[0] == 'ok' else r[0])
+        corr.dist[k] = corr.dist.get(k, 0) + 1
+        msg = tstmt_msg(m, r)
+        if msg and kind == 'tstmt-mutated' and m == ('err', 1) and r[0] == 'ok' and any(t in TSTMT_OUTSIDE for t in toks[1:]):
+            # a mutation put a keyword that may start a qualified name (template, typename, a class key, ...) where a non-type
+            # parameter's type is read: the implementation takes it as part of the type name, the declarator model's base
+            # types are plain names only (such inputs are outside the model, but Parse/Template.v reports code 1 for them)
+            msg = None
+        if msg is None and exp is not None and (m[0] != 'ok' or (m[1], m[2]) != exp):
+            msg = "model does not decode the printed template statement: %s" % (m,)
+        if msg:
+            corr.disagreements.append(dict(case=dict(kind='corr-tstmt', tokens=toks), model=str(m)[:300], impl=str(r)[:300],
+                                           what="template %s: %s" % (' '.join(toks), msg)))
+
+
+# ---------------------------------------------------------------------------
+# concept definitions: extracted concept_stmt (Parse/TemplateStmt.v) vs the real _parse_concept
+
+def real_concept(strs, in_class):
+    from cxxheaderparser import parserstate as PS
+    toks = [impl.mk_tok(decl.tok_type(s), s) for s in strs]
+    p = impl.parser_over(toks)
+    got = []
+
+    class Rec(impl.NullVisitor):
+        def on_concept(self, state, c):
+            got.append(c)
+    p.visitor = Rec()
+    if in_class:
+        cd = T.ClassDecl(T.PQName([T.NameSpecifier('S')], classkey='struct'))
+        p.state = PS.ClassBlockState(p.state, impl.L.Location("<list>", 1), cd, 'public', False, PS.ParsedTypeModifiers({}, {}, {}))
+    tmpl = T.TemplateDecl([T.TemplateTypeParam('typename', 'T')])
+    try:
+        p._parse_concept(impl.mk_tok('concept', 'concept'), None, tmpl)
+    except (impl.CxxParseError, EOFError):
+        return ('err',)
+    except (AssertionError, IndexError, KeyError, AttributeError, TypeError):
+        return ('other',)
+    if len(got) != 1 or got[0].template is not tmpl:
+        return ('other',)
+    return ('ok', got[0].name, tuple(t.value for t in got[0].raw_constraint.tokens), len(p.lex.tokbuf))
+
+
+def model_concepts(cases):
+    lines, nms = [], []
+    for toks, ic in cases:
+        names = decl.Names()
+        lines.append([105, int(ic)] + decl.enc_tokens(toks, names))
+        nms.append(names)
+    res = []
+    for o, names in zip(run_driver(lines), nms):
+        if o[0] != 0:
+            res.append(('err', o[1]))
+        else:
+            n = o[3]
+            res.append(('ok', names.rev.get(o[2], '?'), tuple(names.rev[o[4 + 2 * j + 1]] if o[4 + 2 * j + 1] else impl.TT[o[4 + 2 * j]] for j in range(n)), o[1]))
+    return res
+
+
+CONCEPT_VALUES = [['true'], ['sizeof', '(', 'T', ')', '>', '1'], ['requires', '(', 'T', 't', ')', '{', 't', '.', 'x', ';', '}'], ['A', '<', 'T', '>', '&&', 'B', '<', 'T', ',', 'int', '>'],
+                  ['std', '::', 'is_same_v', '<', 'T', ',', 'U', '>'], ['(', 'a', ',', 'b', ')'], ['!', 'C', '<', 'T', '>']]
+
+
+def correspond_concepts(ctx, corr):
+    rng = ctx.rng
+    cases = []
+    for _ in range(ctx.scale(300, 6000)):
+        v = rng.choice(CONCEPT_VALUES)
+        nm_ = rng.choice(['C', 'Small', 'K2'])
+        toks = [nm_, '='] + v + [';'] + rng.choice([[], ['int', 'x', ';']])
+        ic = rng.random() < 0.2
+        cases.append((toks, ic, None if ic else (nm_, tuple(v)), 'concept-valid'))
+        if rng.random() < 0.5:
+            mt = c02.mutate(rng, toks) or [';']
+            cases.append((mt, rng.random() < 0.2, None, 'concept-mutated'))
+    ms = model_concepts([(c[0], c[1]) for c in cases])
+    for (toks, ic, exp, kind), m in zip(cases, ms):
+        corr.cases += 1
+        r = real_concept(toks, ic)
+        k = kind + ":" + (m[0] if m[0] == 'ok' else 'err%d' % m[1]) + "/" + r[0]
+        corr.dist[k] = corr.dist.get(k, 0) + 1
+        msg = None
+        if r[0] != 'other':
+            if (m[0] == 'ok') != (r[0] == 'ok'):
+                msg = "model %s, implementation %s" % (m[:2], r[:2])
+            elif m[0] == 'ok' and m != r:
+                msg = "model %s, implementation %s" % (m, r)
+        if msg is None and exp is not None and (m[0] != 'ok' or m[1:3] != exp):
+            msg = "model does not decode the printed concept: %s" % (m,)
+        if msg:
+            corr.disagreements.append(dict(case=dict(kind='corr-concept', tokens=toks, in_class=ic), model=str(m)[:300], impl=str(r)[:300],
+                                           what="concept %s: %s" % (' '.join(toks), msg)))
+
+
+# ---------------------------------------------------------------------------
 # using statements: extracted using_stmt (Parse/Using.v) vs the real _parse_using on the same token lists
 
 class _UsingRec(impl.NullVisitor):
@@ -1357,6 +1594,8 @@ def correspond(ctx):
     corr = Corr()
     rng = ctx.rng
     correspond_params_x(ctx, corr)
+    correspond_template_stmts(ctx, corr)
+    correspond_concepts(ctx, corr)
     correspond_using(ctx, corr)
     correspond_enum_decls(ctx, corr)
     correspond_tparams(ctx, corr)
@@ -1549,6 +1788,15 @@ def replay(ctx, case):
         m = model_using([(case["tokens"], case["in_class"], case["has_template"])])[0]
         msg = using_msg(m, real_using(case["tokens"], case["in_class"], case["has_template"]))
         return ["using statement: " + msg] if msg else []
+    if k == 'corr-concept':
+        m = model_concepts([(case["tokens"], case["in_class"])])[0]
+        r = real_concept(case["tokens"], case["in_class"])
+        if r[0] != 'other' and ((m[0] == 'ok') != (r[0] == 'ok') or (m[0] == 'ok' and m != r)):
+            return ["concept definition: model %s, implementation %s" % (m, r)]
+        return []
+    if k == 'corr-tstmt':
+        msg = tstmt_msg(model_template_stmt([case["tokens"]])[0], real_template_stmt(case["tokens"]))
+        return ["template statement: " + msg] if msg else []
     if k == 'corr-paramsx':
         msg = params_x_msg(model_params_x([case["tokens"]])[0], real_params_x(case["tokens"]))
         return ["parameter list: " + msg] if msg else []
